@@ -32,6 +32,20 @@ type c09Cfg struct {
 	GapMs int `json:"gap_ms,omitempty"`
 	// TTL: WITH (STATETTL=...) ; sequences in which some key stays idle for TTL or longer are outside the property and skipped
 	TTL string `json:"state_ttl,omitempty"`
+	// Block: overflow strategy block without a timeout, a window output buffer of one batch and a sink that takes
+	// 20 ms of virtual time per batch: the window has to wait for its consumer and may not discard a cut batch
+	Block bool `json:"block_slow_consumer,omitempty"`
+}
+
+func c09Opts(cfg c09Cfg) detOpts {
+	o := detOpts{Eager: cfg.Eager, Horizon: 300 * vtime.Millisecond}
+	if cfg.Block {
+		p := smallPerf("block", 64, 64, 1)
+		o.Perf = &p
+		o.SinkDelay = 20 * vtime.Millisecond
+		o.Horizon = 2 * vtime.Second
+	}
+	return o
 }
 
 func c09Configs(tier string) []c09Cfg {
@@ -59,6 +73,9 @@ func c09Configs(tier string) []c09Cfg {
 		out = append(out, c09Cfg{N: n, Cols: 1, Eager: true, MaxL: maxL - 1, GapMs: 1500})
 		out = append(out, c09Cfg{N: n, Cols: 1, Eager: true, MaxL: maxL - 1, GapMs: 1500, TTL: "1m"})
 		out = append(out, c09Cfg{N: n, Cols: 1, Eager: true, MaxL: maxL - 1, GapMs: 25000, TTL: "1m"})
+	}
+	for _, n := range []int{1, 2} {
+		out = append(out, c09Cfg{N: n, Cols: 1, Eager: false, MaxL: maxL, Block: true})
 	}
 	return out
 }
@@ -322,7 +339,7 @@ func (c09) Run(u fw.Unit) fw.Result {
 		if !c09InScope(cfg, seq) {
 			return
 		}
-		r := detExec(sql, detOpts{Eager: cfg.Eager, Horizon: 300 * vtime.Millisecond}, c09Feed(cfg, seq))
+		r := detExec(sql, c09Opts(cfg), c09Feed(cfg, seq))
 		a.r.Evaluations++
 		a.r.States++
 		a.r.Transitions += int64(r.Steps)
@@ -354,7 +371,7 @@ func (c09) Describe(tier string) fw.Description {
 		Rule: "(a) all key sequences of length 1..L over <=3 keys (canonical up to key renaming) x N in {1,2,3[,4]} x 1|2 grouping columns (also tuples with a missing column: (a,a), (a,-), (-,a)) x eager|lazy feed, plus pauses of 1.5 s / 25 s of virtual time after every row without and with STATETTL=1m (sequences in which a key idles >= TTL are outside the property and skipped), each executed on the real engine (streamsql.New/Execute/Emit, sync sink) under the deterministic schedule with the virtual clock and compared with the per-key batching reference (ids via collect, count, first/last); " +
 			"(b) 9 fixed sequences x N explored over all schedules of producer, data processor, counting-window goroutine and result consumer with <= bound preemptions; non-trivial = at least one window result delivered (a) / reached through >=1 deviation (b)",
 		Bounds:      map[string]any{"max_len": map[string]int{"quick": 7, "thorough": 9}, "keys": 3, "N": "1..3 (4 in thorough)", "sched_bound": map[string]int{"quick": 1, "thorough": 2}},
-		Assumptions: []string{"runs in which STATETTL reaps a key are excluded (the property excludes them); the default configuration (no STATETTL) must never reap", "window output buffer (50) and data buffer (1000) are never full inside the bounds", "key values contain no separator characters (that is C04's alphabet)"},
+		Assumptions: []string{"runs in which STATETTL reaps a key are excluded (the property excludes them); the default configuration (no STATETTL) must never reap", "with the default drop strategy the window output buffer (50) and data buffer (1000) are never full inside the bounds; the block configurations fill a one-batch window output buffer on purpose", "key values contain no separator characters (that is C04's alphabet)"},
 	}
 }
 
@@ -370,7 +387,7 @@ func (c09) Replay(v fw.Violation) (string, bool) {
 	out := ""
 	failed := false
 	for i := 0; i < 2; i++ {
-		r := detExec(c09SQL(cfg), detOpts{Eager: cfg.Eager, Horizon: 300 * vtime.Millisecond}, c09Feed(cfg, seq))
+		r := detExec(c09SQL(cfg), c09Opts(cfg), c09Feed(cfg, seq))
 		kind, what := c09Compare(cfg, seq, r.Batches)
 		out += fmt.Sprintf("run %d: status=%s delivered=%s verdict=%s %s\n", i+1, r.Status, js(r.Batches), kind, what)
 		if kind != "" || r.Status != sched.StatusOK {
